@@ -126,6 +126,31 @@ def _map_substrates_to_labelmap(
     return res
 
 
+def _gather_substrates_by_labelmap(
+    substrates: list[str], labelmap: list[int]
+) -> list[str]:
+    """Order substrate label positions by the product position they end up in.
+
+    Product position ``i`` is built from substrate position ``labelmap[i]``,
+    the same reading of a label map that :class:`mxlpy.LabelMapper` uses and
+    that the documentation describes (``[2, 1, 0]``: product atom 1 comes from
+    substrate atom 3).
+
+    Args:
+        substrates: List of substrate label positions
+        labelmap: For each product position the substrate position it is built from
+
+    Returns:
+        For each product position the substrate label position feeding it
+
+    Examples:
+        >>> _gather_substrates_by_labelmap(['A', 'B', 'C'], [2, 0, 1])
+        ['C', 'A', 'B']
+
+    """
+    return [substrates[pos] for pos in labelmap]
+
+
 def _add_label_influx_or_efflux(
     substrates: list[str],
     products: list[str],
@@ -283,7 +308,7 @@ class LinearLabelMapper:
             subs = [j for i in subs for j in isotopomers[i]]
             prods = [j for i in prods for j in isotopomers[i]]
             subs, prods = _add_label_influx_or_efflux(subs, prods, label_map)
-            subs = _map_substrates_to_labelmap(subs, label_map)
+            subs = _gather_substrates_by_labelmap(subs, label_map)
             for i, (substrate, product) in enumerate(zip(subs, prods, strict=True)):
                 if substrate == product:
                     continue
